@@ -314,6 +314,3 @@ Proof.
         -- simpl nth. apply Hothers; [simpl in Hi'; lia | lia].
 Qed.
 
-Print Assumptions rref_lindep.
-Print Assumptions rref_unique.
-Print Assumptions rref_unit_vector.
